@@ -7,6 +7,7 @@ import (
 	"io"
 
 	"github.com/hujm2023/go-sms-protocol/packet"
+	"github.com/hujm2023/go-sms-protocol/verifhook"
 )
 
 type TLV struct {
@@ -162,6 +163,7 @@ func (t TLVs) Bytes() []byte {
 	for _, tlv := range t {
 		b = append(b, tlv.Bytes()...)
 	}
+	b = verifhook.ReorderTriplets(b)
 	return b
 }
 
